@@ -194,23 +194,31 @@ def _k3_cases(tier):
     S3 = ([10.5, 40.5, 70.5], [0.1, 3.1, 6.1], [1.0, 6.2, 9.0])
     P1 = ([10.0], [0.0], [5.0])
     S1 = ([10.5], [0.1], [6.0])
-    c = [(P1, S1, "2s"), (P2, S2, "4500ms"), (P2, S1, "10s"), (P1, S2, 4.5)]
+    c = [(P1, S1, "2s"), (P2, S2, "4500ms"), (P2, S1, "10s"), (P1, S2, 4.5),
+         # explicit window [start, end] (closed) whose ends coincide with data timestamps (seconds after BASE)
+         (P2, S2, "4500ms", 0.0, 5.0), (P2, S2, "10s", 1.0, 6.2), (P2, S2, "10s", 0.5, 5.5)]
     if tier == "thorough":
-        c += [(P3, S2, "4500ms"), (P2, S3, 4)]
+        c += [(P3, S2, "4500ms"), (P2, S3, 4), (P3, S3, "10s", 1.0, 9.0)]
     return c
 
 
 @harness("C04.collocate", cases=_k3_cases,
          expect=lambda c: ["pairs-are-exactly-the-oracle-set", "none-iff-no-pair"])
 def k_collocate(ctx):
-    (pl, plo, ps), (sl, slo, ss), max_interval = ctx.case
+    (pl, plo, ps), (sl, slo, ss), max_interval = ctx.case[:3]
+    win = ctx.case[3:] if len(ctx.case) > 3 else None
+    kw = {}
+    if win:
+        def ts(sec):
+            return (BASE + np.timedelta64(int(sec * 1000), "ms")).astype("M8[ms]").astype(object)
+        kw = {"start": ts(win[0]), "end": str(BASE + np.timedelta64(int(win[1] * 1000), "ms"))}
     prim, plat = _dataset(ctx, "p", pl, plo, ps)
     sec, slat = _dataset(ctx, "s", sl, slo, ss)
     tree = SpecTree(ctx)
     rnd = SymRandom(ctx)
     c = CL.Collocator()
     with _env(ctx, tree, rnd):
-        res = c.collocate(prim, sec, max_interval=max_interval, max_distance="100 km")
+        res = c.collocate(prim, sec, max_interval=max_interval, max_distance="100 km", **kw)
     import pandas as pd
     mi = pd.to_timedelta(max_interval if not isinstance(max_interval, (int, float)) else "%rs" % max_interval)
     mi_ms = int(mi / pd.Timedelta(1, "ms"))
@@ -221,6 +229,8 @@ def k_collocate(ctx):
     # common time window [max(mins) - mi, min(maxs) + mi] computed over *all* points (incl. NaN ones)
     lo = max(min(ps), min(ss)) * 1000 - mi_ms
     hi = min(max(ps), max(ss)) * 1000 + mi_ms
+    if win:
+        lo, hi = max(lo, win[0] * 1000), min(hi, win[1] * 1000)
     inwin_p = [i for i in range(len(ps)) if lo <= ps[i] * 1000 <= hi]
     inwin_s = [i for i in range(len(ss)) if lo <= ss[i] * 1000 <= hi]
     op = [i for i in order(plat, ps) if i in inwin_p]
